@@ -67,7 +67,7 @@ std::string h_gen(Src& s) {
                 else if (kind == N_JK) op.aux = (int)s.choose(3);
             } else if (c == 1) { op.c = 'G'; op.port = kind == N_JR ? (int)s.choose(2) : 0; }
             else if (c == 2) { op.c = 'R'; holding = true; }
-            else if (c == 3) { op.c = 'D'; op.k = idec ? s.range(1, 3) : 1; }
+            else if (c == 3) { op.c = 'D'; op.k = idec ? (s.coin(4) ? 0 : s.range(1, 3)) : 1; }      // a decrement of 0 changes nothing but still makes the limiter look at its predecessors
             else if (c == 4) { op.c = 'E'; attach_done = true; }
             else { op.c = 'W'; op.k = s.range(1, 6); }
             th[t].push_back(op);
@@ -180,7 +180,7 @@ static void run_thread(int t) {
             Call c{ op.c, t, vs_now(), 0, true, held, 0 }; if (op.c == 'L') g_sender[0]->try_release(); else g_sender[0]->try_consume(); c.resp = vs_now(); CL.push_back(c);
             if (op.c == 'C') { uint64_t rinv = 0, rresp = 0; for (auto& x : CL) if (x.c == 'R' && x.ok && x.id == held && x.thread == t) { rinv = x.inv; rresp = x.resp; } EX.push_back(Exit{ held, -1, 2, 0, rinv, rresp, t, -1 }); }
             held = -1; break; }
-        case 'D': { Call c{ 'D', t, vs_now(), 0, true, -1, 0 }; lim_dec(op.k > 0 ? op.k : 1); c.resp = vs_now(); CL.push_back(c); break; }
+        case 'D': { Call c{ 'D', t, vs_now(), 0, true, -1, 0 }; lim_dec(g_limi ? op.k : 1); c.resp = vs_now(); CL.push_back(c); break; }
         case 'E': { Call c{ 'E', t, vs_now(), 0, true, -1, 0 }; make_edge(*g_ow, g_late->in()); c.resp = vs_now(); CL.push_back(c); break; }
         }
     }
